@@ -38,11 +38,17 @@ let table_sx (t : table) : sx =
 let () = main_loop (fun x ->
   ignore (force_types O N0);
   match x with
-  | L [L [f1; f2; f3; f4; f5; f6]; ops; L ts] ->
+  | L (L [f1; f2; f3; f4; f5; f6] :: ops :: L ts :: rest) ->
     let fx = { fx_reorder = sx_bool f1; fx_factor = sx_bool f2; fx_match = sx_bool f3;
                fx_copy = sx_bool f4; fx_gaps = sx_bool f5; fx_disjoint = sx_bool f6 } in
     let ops = json_of_sx ops in
-    let ts = List.map table_of_sx ts in
+    (* a 4th element "file": the tables are raw text as read from a tsv file (cells all (s cps)) *)
+    let raw_table x = (match x with
+      | L [L cs; L rs] ->
+        read_table (List.map sx_str cs)
+          (List.map (fun r -> List.map (fun c -> match c with L [A "s"; t] -> sx_str t | _ -> failwith "rawcell") (sx_list r)) rs)
+      | _ -> failwith "rawtable") in
+    let ts = (match rest with [A "file"] -> List.map raw_table ts | _ -> List.map table_of_sx ts) in
     let before = (match parse_operations ops with Ok sts -> sts | Exn _ -> []) in
     (match remodel fx ops ts with
      | Exn e -> L [A "unmodelled"; A (exn_name e)]
